@@ -28,6 +28,10 @@ INFO = {
  "S-C08-2": ("C08", "minus-strand del..ins.. position shifted by the inserted instead of the deleted length", "a minus-strand gene with a deletion-insertion whose parts differ in length (CYP2A6 only among the shipped ones)", "caught as written"),
  "S-C18-2": ("C18", "Profile.load lets the options section of the profile file overwrite the user's parameters", "the same parameter both in the loaded profile's options section and given by the user", "missed at first; caught after the 'override' states (file says one value, user gives another) were added to C18"),
  "S-C19-2": ("C19", "the average-depth guard compares with min_coverage instead of min_avg_coverage", "min_avg_coverage configured away from min_coverage and a depth between the two", "missed at first; caught after states with min_avg_coverage=10 at 3x and 40x were added to C19"),
+ "S-C01-3": ("C01", "the in-gene bounds test of coverage assembly became half-open (pos < max mapped coordinate)", "a catalogued substitution exactly on the last mapped genome base (last RefSeq base on +, first on -)", "missed at first; caught (C01, C06) after variants on the first and last RefSeq base were added to the rich tables and boundary-base mismatch reads to the C06 menu"),
+ "S-C02-3": ("C02", "two cooperating edits in solve_major_model: copy ordering only from the third copy on, and the OR lower bound only for the first copy of a carrier", "two copies of a configuration, an unexplained core variant already paying the novelty penalty, another variant observed above its carriers", "caught as written (carried-xor-novel)"),
+ "S-C04-3": ("C04", "two cooperating edits: prod() gained a tight=False mode, and the phasing block uses it for both product kinds", "read-phase evidence with a reference (or other-allele) observation where a candidate allele carries a variant", "caught as written"),
+ "S-C13-3": ("C13", "coverage assembly leaves out the highest mapped genomic coordinate (range(min, max))", "a catalogued variant on the first or last RefSeq base, two builds with opposite strands", "missed by C13 at first (caught by C06 after the boundary reads were added); caught by C13 after alignment-level samples with the boundary alleles were added"),
  "S-C01-2": ("C01", "the generated N-padded reference for indel realignment is cached per process keyed by (contig name, length)", "two genotyping calls in one process for different genes on the same contig, the second sample carrying a catalogued indel", "caught as written (worker processes evaluate several generated databases on contig 7)"),
  "S-C03-2": ("C03", "estimate_cn checks the no-copy-number fallback before the user-supplied structure", "a user-supplied list other than 1,1 for a gene without structural alleles or with the exome profile", "missed at first; caught after user lists on genes without copy-number calling (CYP2C19, G6PD, toy in exome mode) were added to C03"),
  "S-C06-2": ("C06", "Sample.__init__ takes the multi-substitution table from a module-level cache keyed by gene name", "two Samples of same-named genes with different MNV sites in one process, the later one with reads showing a complete MNV", "caught as written (file states of both builds share worker processes)"),
